@@ -802,6 +802,9 @@ public:
         f["inst"] = FD->isTemplateInstantiation();
         f["implicit"] = FD->isImplicit();
         f["defaulted"] = FD->isDefaulted();
+        f["inline"] = FD->isInlined();
+        f["extern"] = FD->isExternallyVisible();
+        f["templated"] = FD->isTemplated() || FD->isTemplateInstantiation();
         json::Array params;
         for (auto P : FD->parameters())
             params.push_back(json::Object{{"decl", usr(P)}, {"name", P->getNameAsString()}, {"type", typeStr(P->getType())}});
@@ -971,6 +974,10 @@ public:
         g["type"] = D.typeStr(VD->getType());
         g["const"] = VD->getType().isConstQualified() || VD->isConstexpr();
         g["staticlocal"] = VD->isStaticLocal();
+        g["inline"] = VD->isInline();
+        g["extern"] = VD->isExternallyVisible();
+        g["templated"] = VD->isTemplated() || isa<VarTemplateSpecializationDecl>(VD);
+        g["staticmember"] = VD->isStaticDataMember();
         g["file"] = D.fileOf(VD->getLocation());
         g["line"] = D.lineOf(VD->getLocation());
         if (VD->isStaticLocal())
